@@ -160,9 +160,9 @@ func c07Gen(r *Rng, tier string, idx int) (string, func() string) {
 	case idx == 2:
 		return c07WRCase(r, "OFF", true, f)
 	case idx == 3:
-		return c07PDCase(r, []string{"ljh22", "ljh3", "off"})
+		return c07PDCase(r, []string{"ljh22", "ljh3", "off"}, true)
 	case idx == 4:
-		return c07PDCase(r, []string{"ljh22", "ljh3"})
+		return c07PDCase(r, []string{"ljh22", "ljh3"}, true)
 	case idx >= 5 && idx <= 9:
 		return c07ABCase(r, tier, idx-4, f)
 	}
@@ -171,7 +171,7 @@ func c07Gen(r *Rng, tier string, idx int) (string, func() string) {
 		return c07WRCase(r, []string{"LJH22", "LJH3", "OFF"}[r.Intn(3)], false, f)
 	case c < 30:
 		ws := [][]string{{"ljh22"}, {"ljh3"}, {"off"}, {"ljh22", "off"}, {"ljh22", "ljh3", "off"}, {"ljh3", "ljh22"}}
-		return c07PDCase(r, ws[r.Intn(len(ws))])
+		return c07PDCase(r, ws[r.Intn(len(ws))], false)
 	}
 	return c07ABCase(r, tier, 0, f)
 }
@@ -888,8 +888,248 @@ func c07WRCase(r *Rng, kind string, hot bool, f c07Facts) (string, func() string
 // ---------------------------------------------------------------------------------------------
 // PD: through the real processSegment / PublishData
 
-func c07PDCase(r *Rng, writers []string) (string, func() string) {
-	in := fmt.Sprintf("PD writers %d %s", len(writers), strings.Join(writers, " "))
-	_ = dastard.Build
-	return in, func() string { return "D 0" }
+// c07PDPipe is one prepared pipeline: scripted source -> real ProcessSegments -> processSegment ->
+// PublishData -> the channel's real file writers.
+type c07PDPipe struct {
+	vs  *dastard.VerifSource
+	dsp *dastard.DataStreamProcessor
+}
+
+const c07PDnsamp, c07PDnpre = 4, 1
+
+func newC07PDPipe(writers []string, path func(w string) string) (*c07PDPipe, error) {
+	dastard.VerifSetSavedTriggers([]dastard.FullTriggerState{{ChannelIndices: []int{0},
+		TriggerState: dastard.TriggerState{AutoTrigger: true}}})
+	vs := dastard.NewVerifSource(1, 100000.0)
+	if err := vs.VerifPrepare(c07PDnpre, c07PDnsamp); err != nil {
+		return nil, err
+	}
+	dsp := vs.VerifProcessor(0)
+	for _, w := range writers {
+		switch w {
+		case "ljh22":
+			dsp.SetLJH22(0, c07PDnpre, c07PDnsamp, 1, 1e-5, c07T0, 1, 1, 1, 1, 0, 0, 0, path(w), "src", "chan0", 0, dastard.Pixel{})
+		case "ljh3":
+			dsp.SetLJH3(0, 1e-5, 1, 1, 1, 0, path(w))
+		case "off":
+			nb := 2
+			pr := mat.NewDense(nb, c07PDnsamp, []float64{1, 0, 0, 0, 0, 1, 0, 0})
+			ba := mat.NewDense(c07PDnsamp, nb, []float64{1, 0, 0, 1, 0, 0, 0, 0})
+			if err := dsp.SetProjectorsBasis(pr, ba, "m"); err != nil {
+				return nil, err
+			}
+			dsp.SetOFF(0, c07PDnpre, c07PDnsamp, 1, 1e-5, c07T0, 1, 1, 1, 1, 0, 0, 0, path(w), "src", "chan0", 0, pr, ba, "m", dastard.Pixel{})
+			dsp.OFF.CreationInfo.CreationTime = c07T0
+		}
+	}
+	return &c07PDPipe{vs: vs, dsp: dsp}, nil
+}
+
+// block b: one record length of samples; the auto trigger makes (at most) one record per block.
+func (p *c07PDPipe) block(b int) error {
+	d := make([]dastard.RawType, c07PDnsamp)
+	for j := range d {
+		d[j] = dastard.RawType(b*37 + j*5 + 3)
+	}
+	first := int64(100000 + b*c07PDnsamp)
+	p.vs.VerifProcessSegment(0, first, c07T0.UnixNano()+first*10000, 10000, d)
+	return nil
+}
+func (p *c07PDPipe) nwritten(w string) int {
+	switch w {
+	case "ljh22":
+		return p.dsp.LJH22.RecordsWritten
+	case "ljh3":
+		return p.dsp.LJH3.RecordsWritten
+	}
+	return p.dsp.OFF.RecordsWritten()
+}
+func (p *c07PDPipe) qlen(w string) int {
+	switch w {
+	case "ljh22":
+		return p.dsp.LJH22.VerifQueueLen()
+	case "ljh3":
+		return p.dsp.LJH3.VerifQueueLen()
+	}
+	return p.dsp.OFF.VerifQueueLen()
+}
+func (p *c07PDPipe) remove(w string) {
+	switch w {
+	case "ljh22":
+		p.dsp.RemoveLJH22()
+	case "ljh3":
+		p.dsp.RemoveLJH3()
+	default:
+		p.dsp.RemoveOFF()
+	}
+}
+
+func c07PDCase(r *Rng, writers []string, hot bool) (string, func() string) {
+	nfree := r.Range(2, 12)
+	nrej := r.Range(1, 30)
+	if !hot && r.Chance(40) {
+		nrej = 0 // the disk never stalls
+	}
+	nmore := r.Range(0, 6)
+	in := fmt.Sprintf("PD writers %d %s free %d rej %d more %d", len(writers), strings.Join(writers, " "), nfree, nrej, nmore)
+	return in, func() string {
+		dastard.VerifStartClientDrain()
+		// reference pipeline on regular files: per block, the bytes each writer adds
+		c07PipeSeq++
+		seq := c07PipeSeq
+		refFiles := map[string]*os.File{}
+		refSize := map[string]int64{}
+		ref, err := newC07PDPipe(writers, func(w string) string { return filepath.Join(c07Dir(), fmt.Sprintf("pdref_%d.%s", seq, w)) })
+		if err != nil {
+			return "PANIC pd-prepare"
+		}
+		pipes := map[string]*c07Pipe{}
+		for _, w := range writers {
+			pp, err := newC07Pipe("pd_" + w)
+			if err != nil {
+				return "PANIC mkfifo"
+			}
+			pipes[w] = pp
+			defer pp.close()
+		}
+		tst, err := newC07PDPipe(writers, func(w string) string { return pipes[w].path })
+		if err != nil {
+			return "PANIC pd-prepare"
+		}
+		toks := map[string][]string{}
+		seen := map[string]int{}
+		rejected := map[string]int{}
+		drainAll := func() {
+			for _, pp := range pipes {
+				pp.drain()
+			}
+		}
+		settle := func() {
+			c07WaitUntil(2*time.Second, func() bool {
+				drainAll()
+				for _, w := range writers {
+					if tst.qlen(w) > 0 {
+						return false
+					}
+				}
+				return true
+			})
+		}
+		nblock := 0
+		oneBlock := func() string {
+			b := nblock
+			nblock++
+			before := map[string]int{}
+			rbefore := map[string]int{}
+			for _, w := range writers {
+				before[w], rbefore[w] = tst.nwritten(w), ref.nwritten(w)
+			}
+			if err := ref.block(b); err != nil {
+				return "PANIC pd-ref-process"
+			}
+			ref.dsp.Flush()
+			if err := tst.block(b); err != nil { // a rejected OFF record panics inside a processing goroutine: the process dies here
+				return "PANIC pd-process-error"
+			}
+			for _, w := range writers {
+				dref := ref.nwritten(w) - rbefore[w]
+				if dref == 0 {
+					continue
+				}
+				if dref != 1 {
+					return "PANIC pd-more-than-one-record-per-block"
+				}
+				if refFiles[w] == nil {
+					f, err := os.Open(filepath.Join(c07Dir(), fmt.Sprintf("pdref_%d.%s", seq, w)))
+					if err != nil {
+						return "PANIC pd-ref-file"
+					}
+					refFiles[w] = f
+				}
+				st, _ := refFiles[w].Stat()
+				grow := make([]byte, st.Size()-refSize[w])
+				refFiles[w].ReadAt(grow, refSize[w])
+				refSize[w] = st.Size()
+				d := tst.nwritten(w) - before[w]
+				if d != 0 && d != 1 {
+					return "PANIC pd-counter"
+				}
+				if d == 0 {
+					rejected[w]++
+				}
+				// the first unit holds the header too (written by the same PublishData call into the empty queue)
+				toks[w] = append(toks[w], fmt.Sprintf("R %s %d", hexs(grow), d))
+			}
+			return ""
+		}
+		rendezvous := func(name string, call func()) {
+			done := make(chan struct{})
+			go func() { call(); close(done) }()
+			for {
+				drainAll()
+				select {
+				case <-done:
+					drainAll()
+					for _, w := range writers {
+						pp := pipes[w]
+						q := 0
+						if name == "f" {
+							q = tst.qlen(w)
+						}
+						toks[w] = append(toks[w], fmt.Sprintf("%s %d %s", name, q, hexs(pp.data[seen[w]:])))
+						seen[w] = len(pp.data)
+					}
+					return
+				default:
+					time.Sleep(20 * time.Microsecond)
+				}
+			}
+		}
+		for i := 0; i < nfree; i++ {
+			if e := oneBlock(); e != "" {
+				return e
+			}
+			settle()
+		}
+		// the disk stalls: nobody drains the pipes
+		for n := 0; n < 30000 && nrej > 0; n++ {
+			if e := oneBlock(); e != "" {
+				return e
+			}
+			min := 1 << 30
+			for _, w := range writers {
+				if rejected[w] < min {
+					min = rejected[w]
+				}
+			}
+			if min >= nrej {
+				break
+			}
+		}
+		settle()
+		rendezvous("f", tst.dsp.Flush)
+		for i := 0; i < nmore; i++ {
+			if e := oneBlock(); e != "" {
+				return e
+			}
+			settle()
+		}
+		rendezvous("c", func() {
+			for _, w := range writers {
+				tst.remove(w)
+			}
+		})
+		for _, w := range writers {
+			ref.remove(w)
+			if refFiles[w] != nil {
+				refFiles[w].Close()
+			}
+		}
+		var sb strings.Builder
+		fmt.Fprintf(&sb, "D %d", len(writers))
+		for _, w := range writers {
+			fmt.Fprintf(&sb, " %s T %d %s", w, len(toks[w]), strings.Join(toks[w], " "))
+		}
+		return sb.String()
+	}
 }
